@@ -6,6 +6,7 @@ import (
 	"go/ast"
 	"go/token"
 	"go/types"
+	"sort"
 	"strings"
 
 	"golang.org/x/tools/go/types/typeutil"
@@ -204,6 +205,64 @@ func checkC08(c *Ctx) {
 			}
 		}
 		ra.Check(okb, bc.Name(), "join-table QueryClauses applied unless unscoped", bc.Body.Pos(), "applied under !Unscoped", "association look-ups through a join table do not apply the join table's query clauses (or apply them even when unscoped)")
+	}
+
+	// the application of a model's clauses is conditional only on that model's schema being present, on
+	// Unscoped, or on the clause list itself - never on an unrelated condition
+	for _, f := range p.FuncsOf(pkgGorm, pkgCallbacks) {
+		loops := applyLoops(f)
+		if len(loops) == 0 {
+			continue
+		}
+		gs := p.Guards(f, nil)
+		for _, l := range loops {
+			if l.field == "CreateClauses" {
+				continue
+			}
+			facts, live := gs.At(l.rs.X.Pos())
+			if !live {
+				continue
+			}
+			var foreign []string
+			for fc := range facts {
+				var body string
+				switch {
+				case strings.HasPrefix(fc, "NN:"):
+					body = fc[3:]
+				case strings.HasPrefix(fc, "N:"), strings.HasPrefix(fc, "T:"), strings.HasPrefix(fc, "F:"):
+					body = fc[2:]
+				default:
+					continue
+				}
+				if strings.HasPrefix(fc, "N:") {
+					if !strings.HasSuffix(body, ".Error") { // "no earlier error": nothing is executed otherwise
+						foreign = append(foreign, fc)
+					}
+					continue
+				}
+				okc := false
+				// about the schema whose clauses are applied (or a prefix of its path), its clause list, or Unscoped
+				for pre := l.source; pre != ""; {
+					if body == pre || strings.Contains(body, pre+"."+l.field) {
+						okc = true
+					}
+					i := strings.LastIndex(pre, ".")
+					if i < 0 {
+						break
+					}
+					pre = pre[:i]
+				}
+				if strings.HasSuffix(body, ".Unscoped") && strings.HasPrefix(fc, "F:") {
+					okc = true
+				}
+				if !okc {
+					foreign = append(foreign, fc)
+				}
+			}
+			sort.Strings(foreign)
+			c.Touch(f)
+			ra.Check(len(foreign) == 0, f.Name(), "apply "+l.field+" of "+l.source+" unconditionally", l.rs.Pos(), "conditional only on the schema / Unscoped / the clause list", "the "+l.field+" of "+l.source+" are applied only under an unrelated condition ("+strings.Join(foreign, ", ")+"): on the other paths the model's soft-delete filter is missing")
+		}
 	}
 
 	// ---- C08.unscoped-writers ----
